@@ -71,7 +71,7 @@ pub struct Sc {
     /// Symbolic links in the cache (a dot-file manager, a synchronised folder): 1 = every existing
     /// year file is a link to a file in ~/sync; 2 = the cache directory itself is a link to
     /// ~/sync/acb; 3 = as 1, and the year files the victim may write for the first time are dangling
-    /// links. 0 = none.
+    /// links; 4 = every existing year file has a second hard link in ~/backup (a snapshot tool). 0 = none.
     #[serde(default)]
     pub linked_cache: u8,
     /// Set by minimisation: explore this single crash point only.
@@ -190,7 +190,7 @@ pub fn generate(seed: u64, tier: Tier) -> Sc {
             // (its own stream: the rest of the scenario is what it was before this knob existed)
             let mut rl = Rng::new(crate::prng::mix(seed, 0x11CC, 14));
             if rl.chance(1, 6) {
-                rl.range(1, 3) as u8
+                rl.range(1, 4) as u8
             } else {
                 0
             }
@@ -648,7 +648,16 @@ impl Engine for C14 {
             with_world(|w| {
                 let dir = cache_dir_key();
                 let d = &mut w.fs.disk;
-                if sc.linked_cache == 2 {
+                if sc.linked_cache == 4 {
+                    d.put_dir("/simfs/home/backup");
+                    let names: Vec<(String, u64)> = d.children(dir).into_iter().filter(|(n, is_dir, _)| !*is_dir && n.starts_with("rates-") && n.ends_with(".csv")).map(|(n, _, i)| (n, i)).collect();
+                    for (n, ino) in names {
+                        d.names.insert(format!("/simfs/home/backup/{}.snapshot", n), ino);
+                        if let Some(i) = d.inodes.get_mut(&ino) {
+                            i.nlink += 1;
+                        }
+                    }
+                } else if sc.linked_cache == 2 {
                     // the whole directory lives elsewhere
                     let prefix = format!("{}/", dir);
                     let moved: Vec<(String, u64)> = d.names.iter().filter(|(p, _)| p.starts_with(&prefix)).map(|(p, i)| (p.clone(), *i)).collect();
@@ -690,6 +699,7 @@ impl Engine for C14 {
                 }
             });
             st.bump(match sc.linked_cache {
+                4 => "probe.cache_year_files_have_a_second_hard_link",
                 2 => "probe.cache_directory_is_a_symbolic_link",
                 3 => "probe.cache_year_files_are_symbolic_links_some_dangling",
                 _ => "probe.cache_year_files_are_symbolic_links",
